@@ -5,7 +5,8 @@ data.  `harness/extract/skeleton.go` regenerates the same lists from /repo on ev
 (`Rare.Gen.Skeleton`); `Props` proves them equal.  Reading guide (token → transition):
 
 * `openFilesToChan`: `send:sema` + `go{` = `Step.start`; `call:out.syncReaderToBatcher` = the `Step.send`s
-  of that source; the deferred `recv:sema`, `call:wg.Done` = `Step.finish`; `call:wg.Wait`,
+  of that source; the deferred `recv:sema`, `call:out.stopFileReading` (status bookkeeping, a stuttering step),
+  `call:wg.Done` = `Step.finish`; `call:wg.Wait`,
   `call:out.close` (after the spawn loop) = `Step.closeC`.
 * `syncReaderToBatcher*`: one `send:s.c` inside the scan loop and one after it (the remainder) =
   exactly the batches of `Rare.Batcher.run`.
@@ -17,7 +18,7 @@ data.  `harness/extract/skeleton.go` regenerates the same lists from /repo on ev
 -/
 namespace Rare.PipelineSkeleton
 
-def openFilesToChan : List String := ["makechan:concurrency", "go{", "range:bufferedFilenames{", "send:sema", "call:wg.Add", "call:out.setSourceCount", "go{", "defer{", "recv:sema", "call:wg.Done", "call:out.stopFileReading", "}", "call:out.incErrors", "return", "defer:file.Close", "call:out.startFileReading", "call:out.syncReaderToBatcher", "}", "}", "call:wg.Wait", "call:out.close", "}", "return"]
+def openFilesToChan : List String := ["makechan:concurrency", "go{", "range:bufferedFilenames{", "send:sema", "call:wg.Add", "call:out.setSourceCount", "go{", "defer{", "recv:sema", "call:out.stopFileReading", "call:wg.Done", "}", "call:out.incErrors", "return", "defer:file.Close", "call:out.startFileReading", "call:out.syncReaderToBatcher", "}", "}", "call:wg.Wait", "call:out.close", "}", "return"]
 
 def openReaderToChan : List String := ["go{", "defer:reader.Close", "defer:out.close", "call:out.startFileReading", "call:out.syncReaderToBatcherWithTimeFlush", "}", "return"]
 
